@@ -1,8 +1,9 @@
 #!/bin/sh
-# run every stored equivalent refactoring against all 20 checks; prints the ones that raise an alarm
+# run every stored equivalent refactoring against all 20 checks (or PROPS="C09 C10"); prints the ones that raise an alarm
+# env: PAT (glob of directories), PAR (parallelism), BIN (checker binary), PROPS (properties; then the suite is not run)
 export GOFLAGS=-mod=mod GOPROXY=off GOSUMDB=off GOTOOLCHAIN=local
 OUT=${1:-/tmp/eqout}; rm -rf $OUT; mkdir -p $OUT
-cp /verif/bin/prunnerlint /tmp/prunnerlint-eq; export PRUNNERLINT=/tmp/prunnerlint-eq
+cp ${BIN:-/verif/bin/prunnerlint} /tmp/prunnerlint-eq; export PRUNNERLINT=/tmp/prunnerlint-eq
 ls -d /verif/seeded-equivalent/${PAT:-*}/ | xargs -P ${PAR:-6} -I{} sh -c 'python3 /verif/tools/try_equiv.py {} > '$OUT'/$(basename {}).json 2>&1'
 python3 - $OUT <<'PY'
 import json,glob,sys
